@@ -335,8 +335,8 @@ def main : IO Unit := do
   let d := match (← IO.getEnv "DV_DEFECTS") with
     | some "none" => Defects.none
     | some "beforeFixes" => Defects.beforeFixes
-    | some "hashOrderIds" => { hashOrderIds := true, partialRefusal := false }
-    | some "partialRefusal" => { hashOrderIds := false, partialRefusal := true }
+    | some "hashOrderIds" => { Defects.asImplemented with hashOrderIds := true }
+    | some "partialRefusal" => { Defects.asImplemented with partialRefusal := true }
     | _ => Defects.asImplemented
   let da := match (← IO.getEnv "DV_ADM_DEFECTS") with
     | some "none" => Adm.Defects.none
